@@ -269,6 +269,18 @@ def check_arm(chk, f, name, enum, av, arm, sw_bb):
                     truth = (taken == "else") if listed == [0] else (taken != 0)
                     if (c[1] == "Eq") == truth:
                         pin = b[1]
+            elif c[0] == "call" and c[1] in ("core::cmp::PartialEq::eq", "core::cmp::PartialEq::ne") and len(c[2]) == 2:
+                # `err == ErrorMessages::X` (derived PartialEq on the message made from the code): the variant's discriminant
+                for a, b in ((c[2][0], c[2][1]), (c[2][1], c[2][0])):
+                    b2 = ps.core(b)
+                    if b2[0] == "agg" and str(b2[1]).startswith("zvt::constants::ErrorMessages::") and not b2[2] and \
+                            any(x[0] == "call" and x[1].endswith("FromPrimitive::from_u8") and on_error_field(x) for x in ps.walk(a)):
+                        em_ = ZVT_ADTS.get("zvt::constants::ErrorMessages") or {}
+                        code_ = next((v_.get("discr") for v_ in em_.get("variants", []) if v_.get("name") == str(b2[1]).rsplit("::", 1)[-1]), None)
+                        truth = (taken == "else") if listed == [0] else (taken != 0)
+                        if code_ is not None and (c[1].endswith("::eq")) == truth:
+                            pin = code_
+                        break
             elif c[0] == "discr" and any(x[0] == "call" and x[1].endswith("FromPrimitive::from_u8") and on_error_field(x) for x in ps.walk(c)):
                 # match on the ErrorMessages value made from the code: discriminant == code
                 inner = ps.core(c[1])
